@@ -55,22 +55,26 @@ Unwrap(job, me, path) ==
          IF fr.pipe # job.next \/ fr.pkg.enc # job.next THEN [path |-> path, final |-> [kind |-> "garbage", to |-> ""], at |-> me]
          ELSE Unwrap(fr.pkg.x, job.next, Append(path, job.next))
 
-Down ==   \* operator task for the deepest agent; first hop checks in
+(* kind "cmd": an ordinary task; kind "file": a file push - the file's bytes as a chunk task and then the command that
+   names the file, both addressed to the deepest agent, both wrapped and routed the same way, in that order *)
+Kinds == {"cmd", "file"}
+Down(kind) ==   \* operator task(s) for the deepest agent; first hop checks in
+    /\ kind \in Kinds
     /\ last' = IF Dropped THEN [op |-> "Down", owner |-> "", delivered |-> FALSE, path |-> <<>>, at |-> "", ok |-> FALSE]
                ELSE LET u == Unwrap(Wrapped, chain[1], <<>>) IN
                     [op |-> "Down", owner |-> "", delivered |-> TRUE, path |-> u.path, at |-> u.at, ok |-> (u.final = Task(chain[Len(chain)]))]
-    /\ hist' = Append(hist, [op |-> "Down", owner |-> ""])
+    /\ hist' = Append(hist, [op |-> "Down", owner |-> "", kind |-> kind])
     /\ UNCHANGED <<chain, cls>>
 
 (* a callback of the deepest agent relayed upward hop by hop; the request id is outstanding for `owner` *)
 Up(owner) ==
     /\ last' = [op |-> "Up", owner |-> owner, delivered |-> TRUE, path |-> <<>>,
                 at |-> IF owner = chain[Len(chain)] THEN owner ELSE "", ok |-> TRUE]
-    /\ hist' = Append(hist, [op |-> "Up", owner |-> owner])
+    /\ hist' = Append(hist, [op |-> "Up", owner |-> owner, kind |-> ""])
     /\ UNCHANGED <<chain, cls>>
 
 Next == /\ Len(hist) < 3
-        /\ \/ Down
+        /\ \/ \E k \in Kinds : Down(k)
            \/ \E o \in {chain[i] : i \in 1..Len(chain)} \cup {"nobody"} : Up(o)
 
 Spec == Init /\ [][Next]_vars
